@@ -110,7 +110,7 @@ def degenerate_site_enzymes():
                 continue
         except Exception:
             continue
-        if re.fullmatch("[ACGT]+", e.site) or not re.fullmatch("[ACGTRYSWKM]+", e.site):
+        if re.fullmatch("[ACGT]+", e.site) or not re.fullmatch("[ACGTRYSWKMBDHV]+", e.site):
             continue
         if e.fst5 - len(e.site) < 0 or e.fst3 is None or abs(e.ovhg) < 1:
             continue
